@@ -328,7 +328,7 @@ func (s *SpecValidator) validateCircularAncestry(nm string, sch spec.Schema, kno
 		schn = sch.Ref.String()
 	}
 
-	if schn != nm && schn != "" {
+	if sch.Ref.String() != "" { // schn is the reference being followed: it must not have been met before
 		if _, ok := knowns[schn]; ok {
 			ancs = append(ancs, schn)
 		}
